@@ -1,2 +1,36 @@
-(* C10 - closing theorems only. *)
-From Slim Require Import Base Keys Model.
+(* C10 - Every lookup is total, and hits are consistent and carry supplied values.
+   Closing theorem only; proofs in theories/ConsistProofs.v.
+
+   On the tree model (L2) a Go panic is the outcome [Err (EPanic _)] (a result node
+   that is not a leaf, or a leaf ordinal outside the leaf array); the model's
+   lookups are structural recursions, so termination is by construction and the
+   theorem says that no panic outcome is reachable, for EVERY query string, in
+   every mode, with and without values, including the empty and single-key tries.
+   Word-level index bounds (bitmaps, rank indexes) are below this model: they are
+   covered by the correspondence, where a Go panic is an observable the model
+   never predicts. *)
+From Slim Require Import Base Keys Model QueryProofs ConsistProofs.
+
+Theorem C10_total_and_consistent :
+  forall (ropt : raw_opt) (keys : list key) (vals : option (list (list byte))) (T : trie) (q : key),
+    build (normalize ropt) keys vals = Ok T ->
+    (exists f, get T q = Ok f) /\ (exists f, rangeget T q = Ok f) /\ (exists s, search T q = Ok s) /\
+    (get T q = Ok NotFound <-> getid T q = None) /\
+    (forall v, get T q = Ok (Found v) -> exists lv rv, search T q = Ok (lv, Some v, rv)) /\
+    (get T q = Ok NotFound -> exists lv rv, search T q = Ok (lv, None, rv)) /\
+    (forall v, get T q = Ok (Found v) -> rangeget T q = Ok (Found v)) /\
+    (forall v, get T q = Ok (Found v) ->
+       exists i, i < length keys /\ retained (normalize ropt) keys vals i = true /\
+                 val_bytes v = supplied vals i /\ (vals = None -> v = None)).
+Proof. intros ropt keys vals T q. exact (lookups_total_consistent (normalize ropt) keys vals T q). Qed.
+Print Assumptions C10_total_and_consistent.
+
+(* non-vacuity: a false positive in filter mode is consistent across the APIs *)
+Definition ex_keys : list key := [ ["097"%byte]; ["097"%byte; "098"%byte; "099"%byte]; ["098"%byte] ].
+Definition ex_vals : option (list (list byte)) := Some [ ["001"%byte]; ["002"%byte]; ["003"%byte] ].
+Definition ex_opt : raw_opt := {| r_dedup := None; r_inner := None; r_leaf := None; r_complete := None |}.
+Example C10_false_positive_is_consistent :
+  exists T, build (normalize ex_opt) ex_keys ex_vals = Ok T /\
+            get T ["097"%byte; "109"%byte] = Ok (Found (Some ["002"%byte])) /\
+            rangeget T ["097"%byte; "109"%byte] = Ok (Found (Some ["002"%byte])).
+Proof. vm_compute. eexists. repeat split. Qed.
